@@ -90,4 +90,26 @@ theorem C08_condvar_mutex_partial (N : Nat) (bcast : Bool) (wait : WaitK) (fut :
     (σ.th t).pc.wHeld = true ↔ σ.wlockOwner = some t :=
   (winv_wrun r (winv_init N bcast wait fut)).own t
 
+/-- C08 (a publisher always notifies): on a queue whose wait strategy needs notifications, a sender that has
+published a value (the tag store `ts`, possibly followed by the drop of the overwritten value `od`) goes on to the
+notification program (`nb1`: condvar, `nf false`: consumers' task list) — never directly to its return. For all
+states and all outer calls (`try_send`, `start_send`). -/
+theorem C08_publisher_goes_to_notify (σ : St) (t inp : Nat) (hn : σ.wait.needsNotify = true)
+    (hpc : (∃ h o, (σ.th t).pc = .ts h o) ∨ (∃ h, (σ.th t).pc = .od h)) :
+    (∃ h, ((stepRun σ t inp).2.th t).pc = .od h) ∨ (∃ k, ((stepRun σ t inp).2.th t).pc = .nb1 k) ∨
+    (∃ k, ((stepRun σ t inp).2.th t).pc = .nf false k) := by
+  rcases hpc with ⟨h, o, hpc⟩ | ⟨h, hpc⟩
+  all_goals
+    cases hw : σ.wait <;> simp [WaitK.needsNotify, hw] at hn
+  all_goals
+    simp only [stepRun, hpc, sendDone, startNotify, hw]
+    (repeat' split) <;> simp_all [WaitK.needsNotify, St.goto, St.gotoF, St.flush, St.setTh, St.setHd, upd]
+
+/-- C08 (a dropped sender always notifies): the end of a sender drop — after `writers` was decremented, which may
+make the wait condition of every blocked receiver true — is the notification program -/
+theorem C08_sender_drop_goes_to_notify (σ : St) (t : Nat) (hn : σ.wait.needsNotify = true) :
+    (∃ k, ((sendDropTail σ t).th t).pc = .nb1 k) ∨ (∃ k, ((sendDropTail σ t).th t).pc = .nf false k) := by
+  unfold sendDropTail
+  cases hw : σ.wait <;> simp [WaitK.needsNotify, hw] at hn <;> simp [St.goto, St.setTh, upd]
+
 end MQ
